@@ -400,3 +400,355 @@ def normalize_program(ops):
     if pos != list(range(len(pos))):
         out.append(['reorder', [x + 1 for x in pos]])
     return out
+
+# ----------------------------------------------------------------------------------------------------------------
+# systematic families around DemesUtil.slice (every sample ancient) and around coinciding event times
+#
+# A family graph is written as a `spec`: demes in graph order, each {name, parent (None for the root), start (INF for
+# the root), epochs: [(end_time, start_size, end_size, size_function)]}, migrations and pulses as Builder data.  From a
+# spec both the Builder data (spec_graph) and a hand-written native dadi program for a given sampling (family_native)
+# are derived; the native program is written from the definition of the demography (sizes by the closed formulas,
+# durations, 2*Ne*m), it does not go through dadi.Demes.
+
+def growth_val(fn, s0, s1, ts, te, u):
+    """size at time u of an epoch [ts, te) that changes from s0 to s1"""
+    if fn == 'constant':
+        return s0
+    if u == ts:
+        return s0
+    if u == te:
+        return s1
+    frac = (ts - u) / (ts - te)
+    if fn == 'exponential':
+        return s0 * (s1 / s0) ** frac
+    if fn == 'linear':
+        return s0 + frac * (s1 - s0)
+    raise ValueError(fn)
+
+def spec_graph(spec):
+    demes = []
+    for d in spec['demes']:
+        eps = []
+        for (end, s0, s1, fn) in d['epochs']:
+            e = {'end_time': end, 'start_size': s0}
+            if fn != 'constant':
+                e['end_size'] = s1; e['size_function'] = fn
+            eps.append(e)
+        od = {'name': d['name'], 'epochs': eps}
+        if d.get('parent'):
+            od['ancestors'] = [d['parent']]; od['start_time'] = d['start']
+        demes.append(od)
+    g = {'time_units': 'generations', 'demes': demes}
+    if spec.get('migs'):
+        g['migrations'] = [dict(m) for m in spec['migs']]
+    if spec.get('pulses'):
+        g['pulses'] = [dict(p) for p in spec['pulses']]
+    return g
+
+def spec_epochs(d):
+    out = []; ts = d['start']
+    for (end, s0, s1, fn) in d['epochs']:
+        out.append((ts, end, s0, s1, fn)); ts = end
+    return out
+
+def spec_size(d, u):
+    for (ts, te, s0, s1, fn) in spec_epochs(d):
+        if ts > u >= te:
+            return growth_val(fn, s0, s1, ts, te, u)
+    raise ValueError('deme %s does not exist at %r' % (d['name'], u))
+
+def spec_migs(spec):
+    """asymmetric migrations with explicit intervals: [(source, dest, start, end, rate)]"""
+    D = {d['name']: d for d in spec['demes']}
+    out = []
+    for m in spec.get('migs', []):
+        names = m['demes'] if 'demes' in m else [m['source'], m['dest']]
+        st = m.get('start_time', min(D[n]['start'] for n in names))
+        en = m.get('end_time', max(D[n]['epochs'][-1][0] for n in names))
+        if 'demes' in m:
+            a, b = names
+            out += [(a, b, st, en, m['rate']), (b, a, st, en, m['rate'])]
+        else:
+            out.append((m['source'], m['dest'], st, en, m['rate']))
+    return out
+
+def family_native(spec, samples, Ne=None):
+    """hand-written dadi program (ops of c16_impl.run_native) for the spec sampled at samples = [(deme, time)]: the
+    demography more ancient than the most recent sample time, one integration per stretch between two consecutive
+    events, populations in order of appearance.  None when the shape is outside what is written out here (pulses,
+    several events at the same time, demes ending inside the window other than by a split)."""
+    if spec.get('pulses'):
+        return None
+    t = min(tt for _, tt in samples)
+    root = spec['demes'][0]
+    NeV = Ne if Ne is not None else root['epochs'][0][1]
+    D = {d['name']: dict(d) for d in spec['demes']}
+    order = [d['name'] for d in spec['demes']]
+    frozen = {}
+    for i, (n, tt) in enumerate(samples):
+        if tt > t:
+            nm = '%s@%d' % (n, i)
+            sz = spec_size(D[n], tt)
+            D[nm] = {'name': nm, 'parent': n, 'start': tt, 'epochs': [(0.0, sz, sz, 'constant')]}
+            order.append(nm); frozen[nm] = True
+    alive = [n for n in order if D[n]['start'] > t]
+    migs = spec_migs(spec)
+    # events by time
+    ev = {}
+    for n in alive:
+        d = D[n]
+        if d['parent'] is None:
+            continue
+        p = D[d['parent']]
+        pend = p['epochs'][-1][0]
+        if pend == d['start'] and n not in frozen:
+            ev.setdefault(d['start'], {}).setdefault(('split', d['parent']), []).append(n)
+        else:
+            ev.setdefault(d['start'], {})[('branch', d['parent'], n)] = [n]
+    if any(len(v) > 1 for v in ev.values()):
+        return None
+    for n in alive:
+        e = D[n]['epochs'][-1][0]
+        if e > t and not any(k[0] == 'split' and k[1] == n for v in ev.values() for k in v):
+            return None          # a deme that ends inside the window without a split: not written out
+    bps = {t}
+    for n in alive:
+        if D[n]['start'] != INF:
+            bps.add(D[n]['start'])
+        for (ts, te, s0, s1, fn) in spec_epochs(D[n]):
+            if te > t:
+                bps.add(te)
+    for (s_, d_, st, en, r) in migs:
+        if s_ in alive and d_ in alive:
+            for x in (st, en):
+                if x != INF and x > t:
+                    bps.add(x)
+    bps = sorted(bps, reverse=True)
+    pops = [root['name']]
+    ops = [['phi_1D', root['epochs'][0][1] / NeV]]
+    def seg(n, a, b):
+        for (ts, te, s0, s1, fn) in spec_epochs(D[n]):
+            if ts >= a and te <= b:
+                if fn == 'constant':
+                    return ['c', s0 / NeV]
+                return ['e' if fn == 'exponential' else 'l', growth_val(fn, s0, s1, ts, te, a) / NeV, growth_val(fn, s0, s1, ts, te, b) / NeV]
+        raise ValueError('no epoch of %s covers [%r, %r]' % (n, a, b))
+    for i, bp in enumerate(bps):
+        for k, ch in ev.get(bp, {}).items():
+            if k[0] == 'split':
+                ip = pops.index(k[1])
+                if len(ch) == 1:
+                    pops[ip] = ch[0]
+                elif len(ch) == 2:
+                    ops.append(['split', ip + 1]); pops[ip] = ch[0]; pops.append(ch[1])
+                else:
+                    return None
+            else:
+                ops.append(['split', pops.index(k[1]) + 1]); pops.append(k[2])
+        if bp == t:
+            break
+        a, b = bp, bps[i + 1]
+        d = len(pops)
+        M = [[0.0] * d for _ in range(d)]
+        for (s_, d_, st, en, r) in migs:
+            if s_ in pops and d_ in pops and st >= a and max(en, t) <= b:
+                M[pops.index(d_)][pops.index(s_)] = 2 * NeV * r
+        if all(x == 0 for row in M for x in row):
+            M = None
+        fr = [p in frozen for p in pops]
+        ops.append(['integrate', (a - b) / 2 / NeV, [seg(p, a, b) for p in pops], M, fr if any(fr) else None])
+    target = []
+    for i, (n, tt) in enumerate(samples):
+        target.append(n if tt == t else '%s@%d' % (n, i))
+    if len(set(target)) != len(target) or any(x not in pops for x in target):
+        return None
+    for n in order:
+        if n in pops and n not in target:
+            ops.append(['remove', pops.index(n) + 1]); pops.remove(n)
+    if pops != target:
+        ops.append(['reorder', [pops.index(x) + 1 for x in target]])
+    return ops
+
+def _fam_case(rng, spec, samples, tag, units=False, Ne=None, native=True):
+    graph = spec_graph(spec)
+    sampled = [n for n, _ in samples]; times = [tt for _, tt in samples]
+    t = min(times)
+    nfrozen = sum(1 for tt in times if tt > t)
+    # largest number of simultaneous populations (incl. frozen branches) in the retained window
+    life = {d['name']: (d['start'], d['epochs'][-1][0]) for d in spec['demes']}
+    cuts = sorted({x for s, e in life.values() for x in (s, e) if x != INF and x > t} | {tt for tt in times if tt > t} | {t})
+    maxd = 1
+    for u in cuts:
+        c = sum(1 for s, e in life.values() if s > u >= e or (u == t and s > u and e <= u)) + sum(1 for tt in times if tt > u)
+        maxd = max(maxd, c)
+    maxd = max(maxd, sum(1 for s, e in life.values() if s > t and e <= t) + nfrozen)
+    ops = family_native(spec, samples, Ne) if native else None
+    if units:
+        gt = rng.choice([25.0, 2.0, 29.0, 0.5])
+        graph = to_units(graph, gt); times = [tt * gt for tt in times]
+    c = {'graph': graph, 'sampled': sampled, 'times': times, 'Ne': Ne, 'tag': tag, 'maxd': min(max(maxd, len(sampled)), 5)}
+    if ops is not None:
+        c['native_ops'] = ops
+    return c
+
+def _other_fn(fn):
+    return 'linear' if fn == 'exponential' else 'exponential'
+
+def slice_family(rng):
+    """every sample ancient, a non-constant epoch alive at the slice time that ends BEFORE the present:
+    {exponential, linear} x {slice strictly inside the epoch, exactly at its end} x {followed by another epoch, by
+    extinction, by a split} x {1, 2, 3 demes}; around that the rest varies (other demes constant or growing through the
+    slice time, sampled or not, migrations, a second earlier sample, years, explicit Ne)."""
+    out = []
+    for ni, n in enumerate((1, 2, 3)):
+        for fi, fn in enumerate(('exponential', 'linear')):
+            for pi, pos in enumerate(('inside', 'end')):
+                for wi, follow in enumerate(('epoch', 'extinct', 'split')):
+                    idx = len(out)
+                    T0 = rng.choice([2.0, 2.5, 3.0]); Te = rng.choice([0.5, 0.75, 1.0])
+                    t = Te if pos == 'end' else Te + rng.choice([0.125, 0.25, 0.375, 0.5, 0.625])
+                    N0 = _size(rng); s0 = _size(rng); s1 = _size_other(rng, s0)
+                    A_eps = [(Te, s0, s1, fn)]
+                    if follow == 'epoch':
+                        k2 = ['constant', 'exponential', 'linear'][(fi + pi + ni) % 3]
+                        x0 = s1 if rng.random() < 0.5 else _size(rng)
+                        A_eps.append((0.0, x0, x0 if k2 == 'constant' else _size_other(rng, x0), k2))
+                    demes = []
+                    if n == 1:
+                        demes.append({'name': 'A', 'parent': None, 'start': INF, 'epochs': [(T0, N0, N0, 'constant')] + A_eps})
+                    else:
+                        demes.append({'name': 'R', 'parent': None, 'start': INF, 'epochs': [(T0, N0, N0, 'constant')]})
+                        demes.append({'name': 'A', 'parent': 'R', 'start': T0, 'epochs': A_eps})
+                        kb = (wi + 2 * pi + fi) % 4
+                        b0 = _size(rng); b1 = _size_other(rng, b0); fb = rng.choice(['exponential', 'linear'])
+                        B_eps = [[(0.0, b0, b0, 'constant')], [(0.0, b0, b1, fb)], [(t / 2, b0, b1, fb), (0.0, b1, b1, 'constant')],
+                                 [(t, b0, b1, fb), (0.0, b1, b1, 'constant')]][kb]
+                        demes.append({'name': 'B', 'parent': 'R', 'start': T0, 'epochs': B_eps})
+                        if n == 3:
+                            Tc = t + (T0 - t) / 2
+                            c0 = _size(rng)
+                            C_eps = [(0.0, c0, c0, 'constant')] if (wi + fi) % 2 == 0 else [(0.0, c0, _size_other(rng, c0), _other_fn(fb))]
+                            demes.append({'name': 'C', 'parent': 'B', 'start': Tc, 'epochs': C_eps})
+                    if follow == 'split':
+                        demes.append({'name': 'A1', 'parent': 'A', 'start': Te, 'epochs': [(0.0, _size(rng), 0, 'constant')]})
+                        demes.append({'name': 'A2', 'parent': 'A', 'start': Te, 'epochs': [(0.0, _size(rng), 0, 'constant')]})
+                        for d in demes[-2:]:
+                            s = d['epochs'][0][1]; d['epochs'] = [(0.0, s, s, 'constant')]
+                    migs = []
+                    rate = lambda: rng.choice([1 / 32, 1 / 16, 3 / 32, 1 / 8])
+                    if n >= 2:
+                        km = (wi + pi + ni + fi) % 3
+                        if km == 1:
+                            migs.append({'demes': ['A', 'B'], 'rate': rate()})
+                        elif km == 2:
+                            migs.append({'source': 'A', 'dest': 'B', 'rate': rate()})
+                            if n == 3:
+                                migs.append({'source': 'C', 'dest': 'B', 'rate': rate()})
+                                migs.append({'source': 'B', 'dest': 'A', 'rate': rate(), 'start_time': T0, 'end_time': t})
+                    spec = {'demes': demes, 'migs': migs}
+                    var = (wi + pi + 2 * fi) % 3
+                    t2 = t + (T0 - t) / 2
+                    if n == 1:
+                        samples = [('A', t)] + ([('A', t2)] if var == 1 else [])
+                    elif n == 2:
+                        samples = [[('A', t), ('B', t)], [('A', t)], [('B', t), ('A', t2)]][var]
+                    else:
+                        tc2 = t + (T0 - t) / 4
+                        samples = [[('A', t), ('B', t), ('C', t)], [('C', t), ('A', t)], [('A', t), ('C', tc2)]][var]
+                    c = _fam_case(rng, spec, samples, 'slice-family:%d-%s-%s-%s' % (n, fn, pos, follow), units=(idx % 4 == 3),
+                                  Ne=rng.choice([2.0, 3.0, 1.5]) if idx % 5 == 2 else None)
+                    out.append(c)
+    return out
+
+def boundary_family(rng):
+    """sample / slice times that coincide with other times of the graph (epoch boundaries of sampled and of non-sampled
+    demes, start and end of other demes, pulses, migration intervals starting / ending at, inside, across and after the
+    slice time), growth epochs of non-sampled ancestors through the slice time, and frozen branches created exactly at
+    an epoch boundary / pulse time / migration boundary / start of another deme."""
+    out = []
+    T0 = 3.0
+    sz = lambda: _size(rng)
+    fnr = lambda: rng.choice(['exponential', 'linear'])
+    rate = lambda: rng.choice([1 / 32, 1 / 16, 3 / 32, 1 / 8])
+    def grow(end, fn=None, s0=None):
+        s0 = sz() if s0 is None else s0
+        return (end, s0, _size_other(rng, s0), fn or fnr())
+    def const(end, s=None):
+        s = sz() if s is None else s
+        return (end, s, s, 'constant')
+    def base(A_eps, B_eps, extra=(), migs=(), pulses=()):
+        N0 = sz()
+        demes = [{'name': 'R', 'parent': None, 'start': INF, 'epochs': [(T0, N0, N0, 'constant')]},
+                 {'name': 'A', 'parent': 'R', 'start': T0, 'epochs': list(A_eps)},
+                 {'name': 'B', 'parent': 'R', 'start': T0, 'epochs': list(B_eps)}] + list(extra)
+        return {'demes': demes, 'migs': list(migs), 'pulses': list(pulses)}
+    def add(tag, spec, samples, **kw):
+        k = len(out)
+        out.append(_fam_case(rng, spec, samples, 'boundary:' + tag, units=(k % 5 == 4), Ne=rng.choice([2.0, 1.5]) if k % 6 == 3 else None, **kw))
+    t = rng.choice([0.75, 1.0, 1.25])
+    both = [('A', t), ('B', t)]
+    g1 = grow(t)
+    # slice exactly at epoch boundaries of the sampled deme
+    add('slice-at-start-of-growth-epoch', base([const(t), grow(0.0)], [const(0.0)]), both)
+    add('slice-between-two-growth-epochs', base([g1, (0.0, g1[2], _size_other(rng, g1[2]), _other_fn(g1[3]))], [grow(0.0)]), both)
+    # ... of a deme that is not sampled
+    gb = grow(t)
+    add('unsampled-deme-epoch-boundary-at-slice', base([grow(t / 2), const(0.0)], [gb, const(0.0, gb[2])], migs=[{'demes': ['A', 'B'], 'rate': rate()}]), [('A', t)])
+    gb = grow(t)
+    add('unsampled-deme-extinct-at-slice', base([grow(t / 2), const(0.0)], [gb], migs=[{'source': 'B', 'dest': 'A', 'rate': rate()}]), [('A', t)])
+    # another deme starts exactly at the slice time
+    add('branch-at-slice-time', base([grow(t / 2), const(0.0)], [grow(0.0)],
+                                     extra=[{'name': 'C', 'parent': 'B', 'start': t, 'epochs': [const(0.0)]}]), both)
+    gb = grow(t)
+    add('split-at-slice-time', base([grow(t / 2), const(0.0)], [gb],
+                                    extra=[{'name': 'B1', 'parent': 'B', 'start': t, 'epochs': [const(0.0)]},
+                                           {'name': 'B2', 'parent': 'B', 'start': t, 'epochs': [const(0.0)]}]), both)
+    # pulses at / around the slice time
+    add('pulse-at-slice-time', base([grow(t / 2), const(0.0)], [grow(0.0)],
+                                    pulses=[{'sources': ['A'], 'dest': 'B', 'time': t, 'proportions': [0.125]},
+                                            {'sources': ['B'], 'dest': 'A', 'time': t + 0.25, 'proportions': [0.25]},
+                                            {'sources': ['B'], 'dest': 'A', 'time': t - 0.25, 'proportions': [0.375]}]), both)
+    # migration intervals relative to the slice time
+    add('migration-starts-at-slice', base([grow(t / 2), const(0.0)], [const(0.0)],
+                                          migs=[{'source': 'A', 'dest': 'B', 'rate': rate(), 'start_time': t, 'end_time': 0.0},
+                                                {'source': 'B', 'dest': 'A', 'rate': rate()}]), both)
+    add('migration-ends-at-slice', base([grow(t / 2), const(0.0)], [grow(0.0)],
+                                        migs=[{'source': 'A', 'dest': 'B', 'rate': rate(), 'start_time': T0, 'end_time': t}]), both)
+    add('migration-crosses-slice', base([grow(t / 2), const(0.0)], [const(0.0)],
+                                        migs=[{'source': 'A', 'dest': 'B', 'rate': rate(), 'start_time': t + 0.5, 'end_time': t - 0.25},
+                                              {'source': 'B', 'dest': 'A', 'rate': rate(), 'start_time': T0, 'end_time': t + 0.5}]), both)
+    add('migration-inside-window', base([grow(t / 2), const(0.0)], [grow(t - 0.25), const(0.0)],
+                                        migs=[{'source': 'A', 'dest': 'B', 'rate': rate(), 'start_time': t + 1.0, 'end_time': t + 0.25},
+                                              {'demes': ['A', 'B'], 'rate': rate(), 'start_time': t + 0.25, 'end_time': 0.0}]), both)
+    add('migration-after-slice', base([grow(t / 2), const(0.0)], [const(0.0)],
+                                      migs=[{'source': 'A', 'dest': 'B', 'rate': rate(), 'start_time': t - 0.25, 'end_time': 0.0},
+                                            {'source': 'B', 'dest': 'A', 'rate': rate(), 'start_time': T0 - 0.5}]), both)
+    # growth epochs of non-sampled ancestors through the slice time
+    gb = grow(t / 2)
+    add('unsampled-ancestor-growth-crosses-slice', base([grow(t - 0.25), const(0.0)], [gb, const(0.0, gb[2])],
+                                                        extra=[{'name': 'C', 'parent': 'B', 'start': t + 0.5, 'epochs': [grow(0.0)]}]),
+        [('A', t), ('C', t)])
+    gb = grow(t)
+    add('unsampled-ancestor-growth-ends-at-slice', base([const(0.0)], [gb, const(0.0, gb[2])],
+                                                        extra=[{'name': 'C', 'parent': 'B', 'start': t + 0.5, 'epochs': [const(0.0)]}],
+                                                        migs=[{'demes': ['B', 'C'], 'rate': rate()}]),
+        [('C', t), ('A', t)])
+    ga = grow(t / 2); gb = grow(t - 0.25)
+    add('two-growth-epochs-cut', base([ga, const(0.0, ga[2])], [gb, grow(0.0, s0=gb[2])], migs=[{'demes': ['A', 'B'], 'rate': rate()}]), both)
+    # slice plus a frozen branch created exactly at an epoch boundary
+    gb = grow(t + 0.5)
+    add('slice-plus-frozen-at-epoch-boundary', base([grow(t / 2), const(0.0)], [gb, grow(0.0, s0=gb[2])]), [('A', t), ('B', t + 0.5)])
+    add('slice-plus-frozen-same-deme', base([grow(t / 2), const(0.0)], [const(0.0)]), [('A', t), ('A', t + 0.5), ('B', t)])
+    # no slice (a present-day sample): frozen branches created exactly at other events
+    ga = grow(1.0)
+    add('frozen-at-epoch-boundary', base([ga, const(0.0, ga[2])], [grow(0.0)]), [('A', 0.0), ('A', 1.0), ('B', 0.0)])
+    add('frozen-at-pulse-time', base([const(0.0)], [grow(0.0)], pulses=[{'sources': ['A'], 'dest': 'B', 'time': 1.0, 'proportions': [0.25]}]),
+        [('A', 0.0), ('B', 0.0), ('B', 1.0)])
+    add('frozen-at-migration-boundary', base([grow(0.0)], [const(0.0)],
+                                             migs=[{'source': 'A', 'dest': 'B', 'rate': rate(), 'start_time': T0, 'end_time': 1.0},
+                                                   {'source': 'B', 'dest': 'A', 'rate': rate(), 'start_time': 1.0, 'end_time': 0.0}]),
+        [('A', 0.0), ('B', 0.0), ('A', 1.0)])
+    add('frozen-at-other-deme-start', base([const(0.0)], [grow(0.0)], extra=[{'name': 'C', 'parent': 'B', 'start': 1.0, 'epochs': [const(0.0)]}]),
+        [('A', 0.0), ('C', 0.0), ('B', 1.0)])
+    add('frozen-at-deme-end', base([grow(1.0)], [grow(0.0)]), [('B', 0.0), ('A', 1.0)])
+    return out
